@@ -1,6 +1,11 @@
 package sim
 
-import "encoding/json"
+import (
+	"encoding/json"
+	"math/big"
+
+	"dsim/ref"
+)
 
 // Clone deep-copies a Program.
 func (p *Program) Clone() *Program {
@@ -220,7 +225,50 @@ func Minimise(p *Program, still func(*Program) bool, budget int) (*Program, int)
 			break
 		}
 	}
+	// operands: a simpler Decimal where the violation does not care
+	for ei := range cur.Epochs {
+		for ti := range cur.Epochs[ei].Tasks {
+			for oi := range cur.Epochs[ei].Tasks[ti].Ops {
+				for di := range cur.Epochs[ei].Tasks[ti].Ops[oi].D {
+					have := cur.Epochs[ei].Tasks[ti].Ops[oi].D[di]
+					for _, simple := range simplerDecimals(have) {
+						if simple == have || tries >= budget {
+							continue
+						}
+						c := cur.Clone()
+						c.Epochs[ei].Tasks[ti].Ops[oi].D[di] = simple
+						if try(c) {
+							break
+						}
+					}
+				}
+			}
+		}
+	}
 	return cur, tries
+}
+
+// simplerDecimals proposes replacements for an operand, simplest first: one,
+// zero, and the same value with the shortest coefficient.
+func simplerDecimals(h string) []string {
+	out := []string{"30400000000000000000000000000001", "30400000000000000000000000000000"}
+	if len(h) != 32 {
+		return out
+	}
+	n := NumOf(ParseHex(h))
+	if n.Class == ref.Finite && n.Coef.Sign() != 0 {
+		c := new(big.Int).Set(n.Coef)
+		e := n.Exp
+		for e < ref.MaxExp {
+			q, r := new(big.Int).QuoRem(c, big.NewInt(10), new(big.Int))
+			if r.Sign() != 0 {
+				break
+			}
+			c, e = q, e+1
+		}
+		out = append(out, Hex(DecOf(ref.Num{Neg: n.Neg, Coef: c, Exp: e})))
+	}
+	return out
 }
 
 func blankPriv(p *PrivSpec) bool {
